@@ -2,7 +2,8 @@ From Coq Require Import List NArith Bool.
 From V.gen Require Consts.
 From V.common Require Import Varint.
 Require V.C18.Model.
-From V.C01 Require Import Model Proofs.
+Require V.C02.Model V.C02.Proofs.
+From V.C01 Require Import Model Proofs Early Symbolic.
 Import ListNotations.
 Open Scope N_scope.
 From V.C01 Require Import Properties.
@@ -69,6 +70,82 @@ Check (C01_reject_regardless_of_dialed :
   forall on_curve verify pb rs e dialed,
     verify_identity on_curve verify pb rs = Reject e ->
     accept on_curve verify pb rs dialed = Reject e).
+Check (C01_payload_last_key_wins :
+  forall k1 k2 sg,
+    len k1 < 128 -> len k2 < 128 -> len sg < 128 ->
+    decode_payload ([10; len k1] ++ k1 ++ [10; len k2] ++ k2 ++ [18; len sg] ++ sg)
+    = Some (mkPayload (Some k2) (Some sg))).
+Check (C01_payload_unknown_field_skipped :
+  forall key v sg,
+    len key < 128 -> v < 128 -> len sg < 128 ->
+    decode_payload ([10; len key] ++ key ++ [24; v] ++ [18; len sg] ++ sg)
+    = Some (mkPayload (Some key) (Some sg))).
+Check (C01_tls_accept_sound :
+  forall on_curve verify l spki expected p,
+    tls_accept on_curve verify l spki expected = Accept p ->
+    exists l1 kb sg l2 k,
+      l = l1 ++ XP2p (Some (kb, sg)) :: l2 /\ Forall ignorable l1 /\ Forall ignorable l2 /\
+      decode_pubkey on_curve kb = KeyOk k /\
+      verify k (TLS_PREFIX ++ spki) sg = true /\
+      p = peer_id_of_key k /\ (expected = None \/ expected = Some p)).
+Check (C01_tls_accept_complete :
+  forall on_curve verify l1 kb sg l2 k spki expected,
+    Forall ignorable l1 -> Forall ignorable l2 ->
+    decode_pubkey on_curve kb = KeyOk k -> verify k (TLS_PREFIX ++ spki) sg = true ->
+    (expected = None \/ expected = Some (peer_id_of_key k)) ->
+    tls_accept on_curve verify (l1 ++ XP2p (Some (kb, sg)) :: l2) spki expected = Accept (peer_id_of_key k)).
+Check (C01_tls_dialed_mismatch :
+  forall on_curve verify l spki p q,
+    tls_verify on_curve verify l spki = Accept p -> q <> p ->
+    tls_accept on_curve verify l spki (Some q) = Reject EMismatch).
+Check (C01_tls_critical_or_duplicate_refused :
+  forall on_curve verify spki expected p,
+    (forall l, In (XOther true) l -> tls_accept on_curve verify l spki expected <> Accept p) /\
+    (forall la c1 lb c2 lc,
+       tls_accept on_curve verify (la ++ XP2p c1 :: lb ++ XP2p c2 :: lc) spki expected <> Accept p)).
+Check (C01_non_ed25519_never_accepted :
+  forall on_curve verify kb m,
+    decode_keymsg kb = Some m -> k_type m <> 1 ->
+    (forall pb pl rs d p, decode_payload pb = Some pl -> p_key pl = Some kb ->
+       accept on_curve verify pb rs d <> Accept p) /\
+    (forall l sg spki e p, In (XP2p (Some (kb, sg))) l -> tls_accept on_curve verify l spki e <> Accept p)).
+Check (C01_tls_binding :
+  forall (on_curve : bytes -> bool) (verify : bytes -> bytes -> bytes -> bool),
+    (forall pk m m' sg, verify pk m sg = true -> verify pk m' sg = true -> m = m') ->
+    forall l spki spki' e' p',
+      tls_accept on_curve verify l spki' e' = Accept p' -> spki <> spki' ->
+      forall e, tls_accept on_curve verify l spki e = Reject ETlsIssuer).
+Check (C01_every_dial_checked :
+  forall on_curve verify t addr_peer dialed ev p,
+    dial_outcome on_curve verify t addr_peer dialed ev = Some (Accept p) ->
+    p = dialed /\ authentic on_curve verify ev p).
+Check (C01_transport_and_manager_checks :
+  forall on_curve verify,
+    (forall t dialed ev, t <> TWebRtc ->
+       dial_outcome on_curve verify t (Some dialed) dialed ev =
+       transport_verdict on_curve verify t (Some dialed) ev) /\
+    (forall pb rs p dialed,
+       verify_identity on_curve verify pb rs = Accept p -> dialed <> p ->
+       transport_verdict on_curve verify TTcp None (EvNoise pb rs) = Some (Accept p) /\
+       dial_outcome on_curve verify TTcp None dialed (EvNoise pb rs) = Some (Reject EMismatch)) /\
+    (forall t addr_peer dialed ev r,
+       dial_outcome on_curve verify t addr_peer dialed ev = Some r ->
+       t = TTcp \/ (addr_peer <> None /\ (t = TWebSocket \/ t = TQuic)))).
+Check (C01_inbound_authentic :
+  forall on_curve verify t ev p,
+    inbound_outcome on_curve verify t ev = Some (Accept p) -> authentic on_curve verify ev p).
+Check (C01_handshake_framing :
+  (forall b rest, len b < 65536 -> read_frame (frame b ++ rest) = Some (b, rest)) /\
+  (forall s b r, bytes_ok s = true -> read_frame s = Some (b, r) -> s = frame b ++ r /\ len b < 65536) /\
+  (forall s m1 m3 rest, bytes_ok s = true -> listener_reads s = Some (m1, m3, rest) ->
+     s = frame m1 ++ frame m3 ++ rest) /\
+  (forall m1 m3 rest, len m1 < 65536 -> len m3 < 65536 ->
+     listener_reads (frame m1 ++ frame m3 ++ rest) = Some (m1, m3, rest))).
+Check (C01_honest_message_sizes :
+  forall sign idk static,
+    length idk = 32%nat -> length (sign idk (DOMAIN ++ static)) = 64%nat ->
+    length (honest_payload sign idk static) = 104%nat /\
+    msg1_len = 32 /\ msg2_len 104 = 200 /\ msg3_len 104 = 168).
 Check (C01_binding :
   forall (on_curve : bytes -> bool) (verify : bytes -> bytes -> bytes -> bool),
     (forall pk m m' sg, verify pk m sg = true -> verify pk m' sg = true -> m = m') ->
@@ -157,7 +234,7 @@ Check (C01_transcript_honest_partial :
   forall on_curve verify (H : list item -> bytes) (KDF : list bytes -> bytes)
          (pubk : N -> bytes) (dh : N -> bytes -> bytes),
     (forall x y, dh x (pubk y) = dh y (pubk x)) ->
-    forall D L,
+    forall D L, pro D = pro L ->
       let a := forward on_curve verify H KDF pubk dh D L in
       no_forgery on_curve verify H KDF pubk dh D L a /\
       snd (run_d on_curve verify H KDF pubk dh D a) =
@@ -165,5 +242,100 @@ Check (C01_transcript_honest_partial :
       (decode_payload (pay L) <> None ->
        run_l on_curve verify H KDF pubk dh L a =
         outcome_of (check_dialed (dialed_of L) (verify_identity on_curve verify (pay D) (pubk (sta D)))))).
-Check (C01_transcript_hash_instance_partial :
+Check (C01_transcript_hash_instance :
   forall a b, H_inst a = H_inst b -> a = b).
+Check (C01_webrtc_prologue_binds :
+  forall on_curve verify (H : list item -> bytes) (KDF : list bytes -> bytes)
+         (pubk : N -> bytes) (dh : N -> bytes -> bytes),
+    (forall a b, H a = H b -> a = b) ->
+    forall D L a,
+      no_forgery on_curve verify H KDF pubk dh D L a ->
+      (pro D <> pro L ->
+       (forall p, snd (run_d on_curve verify H KDF pubk dh D a) <> OAccept p) /\
+       (forall p, run_l on_curve verify H KDF pubk dh L a <> OAccept p)) /\
+      (forall p, snd (run_d on_curve verify H KDF pubk dh D a) = OAccept p -> pro D = pro L) /\
+      (forall p, run_l on_curve verify H KDF pubk dh L a = OAccept p -> pro D = pro L)).
+Check (C01_xx_order :
+  forall on_curve verify (H : list item -> bytes) (KDF : list bytes -> bytes)
+         (pubk : N -> bytes) (dh : N -> bytes -> bytes),
+    (forall a b, H a = H b -> a = b) ->
+    (forall x y, dh x (pubk y) = dh y (pubk x)) ->
+    forall D L,
+      (pro D = pro L ->
+       let a := withhold3 H KDF pubk dh D L in
+       no_forgery on_curve verify H KDF pubk dh D L a /\
+       snd (run_d on_curve verify H KDF pubk dh D a) =
+         outcome_of (check_dialed (dialed_of D) (verify_identity on_curve verify (pay L) (pubk (sta L)))) /\
+       run_l on_curve verify H KDF pubk dh L a = OIo) /\
+      (forall a p, no_forgery on_curve verify H KDF pubk dh D L a ->
+         run_l on_curve verify H KDF pubk dh L a = OAccept p ->
+         fst (run_d on_curve verify H KDF pubk dh D a) <> None) /\
+      (forall D', d_msg1 pubk D = d_msg1 pubk D' ->
+         l_msg2 H KDF pubk dh L (d_msg1 pubk D) = l_msg2 H KDF pubk dh L (d_msg1 pubk D')) /\
+      (forall m s pl pp,
+         dec (KDF (d_ks1 dh D m)) (H (d_tr1 pubk D m)) (m2_s m) = Some s ->
+         dec (KDF (d_ks2 dh D m s)) (H (d_tr2 pubk D m)) (m2_p m) = Some pl ->
+         decode_payload pl = Some pp ->
+         d_run on_curve verify H KDF pubk dh D (DMsg m) =
+           (Some (mkM3 (d_cs3 H KDF pubk dh D m s) (d_cp3 H KDF pubk dh D m s)),
+            outcome_of (check_dialed (dialed_of D) (verify_payload on_curve verify pp s))))).
+Check (C01_early_data :
+  forall on_curve verify (H : list item -> bytes) (KDF : list bytes -> bytes)
+         (pubk : N -> bytes) (dh : N -> bytes -> bytes)
+         (L : party) (a : attack) (e : V.C02.Model.renv) (bufs sc : list N),
+    ((forall p, run_l on_curve verify H KDF pubk dh L a <> OAccept p) ->
+     listener_app_bytes on_curve verify H KDF pubk dh L a e bufs sc = 0) /\
+    (forall j, V.C02.Proofs.wf_env e -> V.C02.Proofs.not_auth e j ->
+     listener_app_bytes on_curve verify H KDF pubk dh L a e bufs sc
+       <= V.C02.Model.pstart (V.C02.Model.e_plains e) j)).
+Check (C01_dy_attacker_knows_only_public :
+  forall (pro : N -> list N) (asec bad : N -> Prop) tr t,
+    DY.valid pro asec bad tr -> DY.knows asec bad tr t -> DY.pub asec bad t).
+Check (C01_dy_knowledge_monotone :
+  forall (asec bad : N -> Prop) tr tr' t,
+    incl tr tr' -> DY.knows asec bad tr t -> DY.knows asec bad tr' t).
+Check (C01_dy_secrets_never_leak :
+  forall (pro : N -> list N) (asec bad : N -> Prop) tr,
+    DY.valid pro asec bad tr ->
+    (forall a e s, In (DY.NewD a e s) tr \/ In (DY.NewL a e s) tr ->
+       ~ DY.knows asec bad tr (DY.TSk e) /\ ~ DY.knows asec bad tr (DY.TSk s)) /\
+    (forall a, ~ bad a -> ~ DY.knows asec bad tr (DY.TIdSk a))).
+Check (C01_dy_dialer_authenticates :
+  forall (pro : N -> list N) (asec bad : N -> Prop) tr a e s P rs K,
+    DY.valid pro asec bad tr -> In (DY.AcceptD a e s P rs K) tr -> ~ bad P ->
+    In (DY.Signed P (DY.signed_part rs)) tr /\
+    (exists e', In (DY.NewD P e' rs) tr \/ In (DY.NewL P e' rs) tr) /\
+    ~ asec e /\ ~ asec rs /\
+    (exists k y, K = DY.TMix (DY.TMix k (DY.dh e rs)) (DY.dh s y)) /\
+    ~ DY.knows asec bad tr K).
+Check (C01_dy_listener_authenticates :
+  forall (pro : N -> list N) (asec bad : N -> Prop) tr a e s P rs K,
+    DY.valid pro asec bad tr -> In (DY.AcceptL a e s P rs K) tr -> ~ bad P ->
+    In (DY.Signed P (DY.signed_part rs)) tr /\
+    (exists e', In (DY.NewD P e' rs) tr \/ In (DY.NewL P e' rs) tr) /\
+    ~ asec e /\ ~ asec rs /\
+    (exists k, K = DY.TMix k (DY.dh e rs)) /\
+    ~ DY.knows asec bad tr K).
+Check (C01_dy_dialer_agreement :
+  forall (pro : N -> list N) (asec bad : N -> Prop) tr a e s P rs K,
+    DY.valid pro asec bad tr -> In (DY.AcceptD a e s P rs K) tr -> ~ bad P ->
+    exists y, K = DY.d_key e s y rs /\ In (DY.NewL P y rs) tr /\ In (DY.Answered P y rs e) tr /\
+              pro e = pro y /\ DY.msg2_expected pro e y rs P = DY.msg2 pro P y rs e).
+Check (C01_dy_listener_agreement :
+  forall (pro : N -> list N) (asec bad : N -> Prop) tr a e s P rs K,
+    DY.valid pro asec bad tr -> In (DY.AcceptL a e s P rs K) tr -> ~ bad P ->
+    exists y, K = DY.l_key e s y rs /\ In (DY.NewD P y rs) tr /\ In (DY.AcceptD P y rs a s K) tr /\
+              pro e = pro y).
+Check (C01_dy_matching_sessions :
+  forall (pro : N -> list N) (asec bad : N -> Prop) tr a e s P rs a' e' s' P' rs' K,
+    DY.valid pro asec bad tr -> In (DY.AcceptD a e s P rs K) tr -> In (DY.AcceptL a' e' s' P' rs' K) tr ->
+    rs = s' /\ rs' = s /\ (~ bad P -> a' = P) /\ (~ bad P' -> a = P')).
+Check (C01_dy_secret_owner_unique :
+  forall (pro : N -> list N) (asec bad : N -> Prop) tr ev1 ev2 x,
+    DY.valid pro asec bad tr -> In ev1 tr -> In ev2 tr -> In x (DY.names ev1) -> In x (DY.names ev2) -> ev1 = ev2).
+Check (C01_dy_honest_run :
+  forall pro : N -> list N, pro 1 = pro 3 ->
+  DY.valid pro DY.nobody DY.nobody (DY.honest_trace pro) /\
+  In (DY.AcceptD 10 1 2 20 4 (DY.d_key 1 2 3 4)) (DY.honest_trace pro) /\
+  In (DY.AcceptL 20 3 4 10 2 (DY.l_key 3 4 1 2)) (DY.honest_trace pro) /\
+  DY.d_key 1 2 3 4 = DY.l_key 3 4 1 2).
